@@ -309,7 +309,7 @@ class C07(Prop):
     theorems = ["NV.C07.visibility_table", "NV.C07.visibility_any_flags", "NV.C07.visibility_lifted",
                 "NV.C07.driver_origins_never_refused", "NV.C07.bsearch_correct", "NV.C07.find_function_correct",
                 "NV.C07.find_offsets_are_path_sums", "NV.C07.cache_transparent_step", "NV.C07.cache_transparent",
-                "NV.C07.frame_offsets_correct", "NV.C07.built_alias_flags_agree", "NV.C07.built_flags_agree", "NV.C07.inherit_flags_rule_is_spec"]
+                "NV.C07.frame_offsets_correct", "NV.C07.built_alias_flags_agree", "NV.C07.built_flags_agree", "NV.C07.built_inherits_in_world", "NV.C07.inherit_flags_rule_is_spec"]
     witness_theorems = ["NV.C07.Witness.old_cache_not_transparent"]
     consts = [("applyCacheBits", "APPLY_CACHE_BITS"),
               ("nameInherited", "NAME_INHERITED"), ("nameUndefined", "NAME_UNDEFINED"),
@@ -352,8 +352,8 @@ class C07(Prop):
                    "one-level flag-inheritance table",
                    "compress_function_tables / FIND_FUNC_ENTRY are validated as a round trip (model builds uncompressed entries, the "
                    "harness dumps through FIND_FUNC_ENTRY), not modelled",
-                   "heart_beat dispatch (prog->heart_beat index), simul_efun dispatch, efun function pointers and function pointers "
-                   "evaluated by another object (ORIGIN_FUNCTIONAL, bound functions) are not exercised",
+                   "simul_efun dispatch, efun function pointers and function pointers evaluated by another object "
+                   "(ORIGIN_FUNCTIONAL, bind()) are not exercised; the heart_beat origin is (call hb)",
                    "varargs / argument count normalisation (setup_variables) is outside the model",
                    "program deallocation and reuse of a program_t address while a cache entry still names it",
                    "programs loaded from saved binaries (see C17)"]
